@@ -23,7 +23,10 @@ Proof. exact shared_state_refuted. Qed.
 (* the factor pool is a hash-ordered set: the rows that are dropped do not depend on its iteration order *)
 Theorem C18_pool_order_irrelevant : forall c evs evs', Permutation evs evs' -> drop_set c evs = drop_set c evs'.
 Proof. exact drop_set_order_independent. Qed.
-(* the models of build and reuse are functions: the same call gives the same result at every point of every history *)
+(* the models of build and reuse are functions, so the same call gives the same result at every point of every history: the two
+   statements below are true by construction (reflexivity) and carry no evidence of their own -- that the IMPLEMENTATION behaves like these
+   functions at every point of a history is what the `history` correspondence stream, the call-by-call re-execution oracle and the theorems
+   above (earlier specs unaffected; no dependence on pool / spanned-set order) establish *)
 Theorem C18_build_deterministic : forall d n c terms, build d n c terms = build d n c terms.
 Proof. reflexivity. Qed.
 Theorem C18_reuse_deterministic : forall sp d n caller, replay sp d n caller = replay sp d n caller.
